@@ -419,4 +419,43 @@ def check(facts, rep, tier, cfg):
                             "the `%s` handed to %s is `%s`, not the caller's configured value: the authentication requirement "
                             "configured by the operator is dropped or replaced on this path" % (pname, c["name"], fmt(strip(an))[:80]))
     rep.floor("C17.R6", "role-carrying calls in the TLS layer", n6, 6)
+    # ---- R7 a reload replaces the whole identity: nothing of the previous identity is carried into the new one
+    rep.rule("C17.R7", "certificate reload: the value stored into the shared identity is exactly the freshly built configuration; no field of it is "
+                       "taken from the previous identity (session caches, verifiers, resolvers would keep admitting what the old identity admitted)")
+    k7 = 0
+    for b in crate.bodies:
+        if "/src/tls/" not in b.file:
+            continue
+        stores = [(bi, t) for bi, t in b.calls() if callee(t) and callee(t)["name"] == "store" and "ArcSwap" in callee(t)["def"] + callee(t)["path"]]
+        if not stores:
+            continue
+        tr = Tracer(facts, b)
+        k7 += 1
+        rep.analysed(b)
+        where = "%s (%s)" % (loc_str(stores[0][1]["loc"]), b.path)
+        carried = []
+        for bi, blk in enumerate(b.blocks):
+            if blk["cleanup"]:
+                continue
+            for st in blk["stmts"]:
+                if st["k"] == "Assign" and st["lhs"].get("p"):
+                    v = tr.rvalue(st["rv"])
+                    if any(x.kind == "call" and x[6] in ("load", "load_full") and "ArcSwap" in x[1] + x[2] for x in walk(v)):
+                        carried.append(st)
+        for bi, t in b.calls():
+            c = callee(t)
+            if c and c["name"] not in ("store", "load", "load_full", "clone", "deref", "new") and any(
+                    x.kind == "call" and x[6] in ("load", "load_full") and "ArcSwap" in x[1] + x[2] for a in t["args"] for x in walk(tr.operand(a))):
+                pass
+        val = tr.operand(stores[0][1]["args"][1])
+        fresh = any(x.kind == "call" and x[6] in ("make_server_config", "make_server_config_from_pem", "make_tls_identity", "make_server_config_from_mem") for x in walk(val))
+        if carried or not fresh:
+            rep.bad("C17.R7", "reload-replaces-identity/%s" % b.path.split("::{")[0], where,
+                    "the identity stored by the reload %s: handshakes after the reload can still be satisfied by state of the previous identity "
+                    "(e.g. a resumed session skips the new client-certificate check)" % (
+                        "copies a field from the previous identity (%s)" % loc_str(carried[0]["loc"]) if carried else "is not the freshly built configuration"))
+        else:
+            rep.ok("C17.R7", "reload-replaces-identity/%s" % b.path.split("::{")[0], where, "store(Arc::new(fresh config)), nothing carried over")
+    if "server" in crate.features:
+        rep.floor("C17.R7", "identity reload functions", k7, 1)
 
